@@ -229,6 +229,8 @@ func (fc *FnCtx) contractEffects(c *Contract, eff *effects) {
 			eff.worlds = true
 		case strings.HasPrefix(m, "ghost "):
 			eff.ghosts[strings.TrimSpace(m[6:])] = true
+		case strings.HasPrefix(m, "calls "):
+			eff.ghosts["#calls:"+strings.TrimSpace(m[6:])] = true
 		case strings.HasPrefix(m, "heap "):
 			eff.heaps[strings.TrimSpace(m[5:])] = true
 		case m == "all":
